@@ -365,6 +365,9 @@ impl Prop for SolverMates {
             }
             b += 2;
         }
+        if !proved && Solver::new(400_000).mates_within(&succ, 5) == Some(true) {
+            return Err(format!("{}: the final evaluation {} claims a forced mate, but after the reported first move {} it is the opponent who forces mate within 5 plies", what, last.eval, last.line[0].lan()));
+        }
         loc.class(if proved { "first_move_proved_to_keep_mate" } else { "first_move_undecided" });
         loc.class(match n { 1 => "mate_in_1", 3 => "mate_in_3", _ => "mate_in_5" });
         if n >= 3 {
@@ -620,7 +623,16 @@ impl DynProp for SpecialKeyMates3 {
             if (v == 12) != seq.load(std::sync::atomic::Ordering::Relaxed) {
                 return Ok(());
             }
-            let (mirrored, depth, mode) = if v == 12 { (false, 3u8, 2u64) } else { (v >= 6, (v % 3) as u8 + 3, (v / 3) % 2) };
+            // modes: 0 = one worker, 1 = two scheduled workers, 3 = eight scheduled workers (depth 3-4), 2 = public entry point
+            let (mirrored, depth, mode) = if v == 12 {
+                (false, 3u8, 2u64)
+            } else {
+                let m = (v / 3) % 2;
+                let depth = (v % 3) as u8 + 3;
+                // every other position trades its two-worker runs for eight-worker runs
+                let mode = if m == 1 && (i / 13) % 2 == 1 { 3 } else { m };
+                (v >= 6, if mode == 3 { depth.min(4) } else { depth }, mode)
+            };
             let pos = if mirrored { p0.mirror() } else { p0.clone() };
             let seed = crate::runner::h64(&(i, ctx.seed, "s3"));
             let kname = ["an en-passant capture", "an under-promotion", "castling", "a non-king move out of check"][*kind as usize];
@@ -636,7 +648,7 @@ impl DynProp for SpecialKeyMates3 {
                 let ev: i32 = it.next().and_then(|x| x.parse().ok()).unwrap_or(i32::MIN);
                 (ev, it.next().unwrap_or("").to_string(), what)
             } else {
-                let workers = if mode == 0 { 1 } else { 2 };
+                let workers = match mode { 0 => 1, 3 => 8, _ => 2 };
                 let spec = SearchSpec { depth: Some(depth), seed, workers, sched_seed: if workers > 1 { Some(seed ^ 5) } else { None }, cancel_after: None };
                 let (out, _) = search::run(&pos, &spec, search::new_artifact(seed ^ 7, GEOM), usize::MAX);
                 let what = format!("search of '{}' (mate in 3 plies, only by {}; {:?})", pos.fen(), kname, spec);
@@ -659,6 +671,11 @@ impl DynProp for SpecialKeyMates3 {
                 return Err((case, format!("{}: first move '{}' is not legal", what, first)));
             };
             let kept = Solver::new(400_000).lost_within(&succ, 6);
+            // refutation that needs no horizon argument: if, after the reported first move, the OPPONENT
+            // can force mate, the reported "forced mate" does not exist
+            if kept != Some(true) && Solver::new(400_000).mates_within(&succ, 5) == Some(true) {
+                return Err((case, format!("{}: the final evaluation {} claims a forced mate, but after the reported first move {} it is the opponent who forces mate within 5 plies", what, last_eval, first)));
+            }
             if kept == Some(false) && depth <= 5 {
                 // no mate within 7 plies after that move although the search (depth <= 5, fresh memory) claims one:
                 // only extensions could have seen deeper - counted, not judged
@@ -667,7 +684,7 @@ impl DynProp for SpecialKeyMates3 {
                 loc.class(if kept == Some(true) { "special3:first_move_proved_to_keep_mate" } else { "special3:first_move_undecided" });
             }
             loc.class(["special3:key_en_passant", "special3:key_under_promotion", "special3:key_castling", "special3:key_out_of_check_by_another_piece"][*kind as usize]);
-            loc.class(["special3:one_worker", "special3:two_workers_scheduled", "special3:public_entry_point"][mode as usize]);
+            loc.class(["special3:one_worker", "special3:two_workers_scheduled", "special3:public_entry_point", "special3:eight_workers_scheduled"][mode as usize]);
             loc.nontrivial(&(pos.fen4(), depth, mode));
             if i % 53 == 0 {
                 loc.sample(|| json!({"fen": pos.fen(), "key": kname, "depth": depth, "eval": last_eval, "first_move": first, "mode": mode}));
